@@ -153,6 +153,7 @@ def run(prog: Program, rep, tier: str) -> None:
 
     grad_jac(prog, rep, sc)
     kkt(prog, rep, sc)
+    scaling_inputs(prog, rep)
 
 
 def grad_jac(prog: Program, rep, sc) -> None:
@@ -305,3 +306,34 @@ def kkt(prog: Program, rep, sc) -> None:
     ak = dtype_of(s, fs, adata[0].stmt, fs.resolved(adata[0].stmt, adata[0].stmt.value)) if adata else "unknown"
     rep.note(f"working copy of the entry magnitudes: `{short(adata[0].stmt) if adata else '?'}` (dtype kind {ak}; inherits the KKT matrix dtype, which bmat of float blocks makes float)")
     rep.pin("scale_symmetric constructs (guard, sums, sqrt, rescale, accumulate)", sum([ok_guard, ok_acc, len(sq) == 1, ok_upd, ok_d]), 5)
+
+
+def scaling_inputs(prog: Program, rep) -> None:
+    """the automatic scalings are computed from the user's scaling point and callback values as given (no cast / rounding on the way)."""
+    ti = prog.func("pygradflow.transform.Transformation.__init__")
+    ff = facts_for(ti)
+    calls = [n for n in own_nodes(ti.node) if isinstance(n, ast.Call) and dotted(n.func) == "create_scaling"]
+    if len(calls) != 1:
+        raise AnalysisError("Transformation.__init__ does not call create_scaling exactly once")
+    si = ff.stmt_of(calls[0])
+    pr, pa = [p for p in ti.params if p != "self"][:2]
+    a = [U(ff.resolved(si.stmt, z)) for z in calls[0].args]
+    rep.check(a == [pr, pa, f"{pa}.scaling_primal", f"{pa}.scaling_dual"], "scaling-inputs-unmodified", ti.qualname, short(si.stmt),
+              f"create_scaling receives (problem, params, params.scaling_primal, params.scaling_dual) unmodified (found {a})", ti.loc(calls[0]))
+    cs = prog.func("pygradflow.scale.create_scaling")
+    fc = facts_for(cs)
+    pb, pp, sp_, sd_ = cs.params[:4]
+    want = {
+        "Scaling.from_nominal_values": [[sp_, f"__phi__({pb}.cons({sp_}), np.array([], dtype={sp_}.dtype))"]],
+        "Scaling.from_grad_jac": [[f"{pb}.obj_grad({sp_})", f"__phi__({pb}.cons_jac({sp_}), sparse_zero(shape=(0, {pb}.num_vars)))"]],
+        "Scaling.from_equilibrated_kkt": [[f"{pb}.lag_hess({sp_}, {sd_})", f"__phi__({pb}.cons_jac({sp_}), sparse_zero(shape=(0, {pb}.num_vars)))"]],
+    }
+    n = 0
+    for r in returns_of(cs):
+        v = r.value
+        if isinstance(v, ast.Call) and (dotted(v.func) or "") in want:
+            n += 1
+            got = [U(fc.resolved(r, z)) for z in v.args]
+            rep.check(got in want[dotted(v.func)], "scaling-inputs-unmodified", cs.qualname, short(r),
+                      f"{dotted(v.func)} is fed the scaling point / the problem's callback values exactly as given (found {[g[:70] for g in got]})", cs.loc(r))
+    rep.pin("automatic scaling constructions in create_scaling", n, 3)
